@@ -211,7 +211,7 @@ var reTok = regexp.MustCompile(`[A-Za-z_][A-Za-z0-9_.!]*`)
 
 // script renders a query: declarations of the symbols referenced, the
 // assumptions, and the negated goal.
-func (st *Symtab) script(assumes []string, goal string, wantModel bool) string {
+func (st *Symtab) script(assumes []string, goal string, wantModel bool, values ...string) string {
 	var b strings.Builder
 	used := map[string]bool{}
 	scan := func(s string) {
@@ -223,6 +223,9 @@ func (st *Symtab) script(assumes []string, goal string, wantModel bool) string {
 		scan(a)
 	}
 	scan(goal)
+	for _, v := range values {
+		scan(v)
+	}
 	if wantModel {
 		b.WriteString("(set-option :produce-models true)\n")
 	}
@@ -246,7 +249,9 @@ func (st *Symtab) script(assumes []string, goal string, wantModel bool) string {
 	b.WriteString("(assert ")
 	b.WriteString(mkNot(goal))
 	b.WriteString(")\n(check-sat)\n")
-	if wantModel {
+	if wantModel && len(values) > 0 {
+		b.WriteString("(get-value (" + strings.Join(values, " ") + "))\n")
+	} else if wantModel {
 		b.WriteString("(get-model)\n")
 	}
 	return b.String()
@@ -461,3 +466,67 @@ func solveBatch(dir string, scripts []string, perQueryS int) []SolveResult {
 	}
 	return res
 }
+
+// parseValues parses a (get-value ...) answer: term -> value.
+func parseValues(out string) map[string]string {
+	m := map[string]string{}
+	i := strings.Index(out, "((")
+	if i < 0 {
+		return m
+	}
+	s := out[i+1:]
+	// s is a sequence of (term value) pairs followed by ")"
+	pos := 0
+	readSexp := func() string {
+		for pos < len(s) && (s[pos] == ' ' || s[pos] == '\n' || s[pos] == '\t' || s[pos] == '\r') {
+			pos++
+		}
+		if pos >= len(s) {
+			return ""
+		}
+		start := pos
+		if s[pos] != '(' {
+			for pos < len(s) && !strings.ContainsRune(" \n\t\r()", rune(s[pos])) {
+				pos++
+			}
+			return s[start:pos]
+		}
+		d := 0
+		for pos < len(s) {
+			switch s[pos] {
+			case '(':
+				d++
+			case ')':
+				d--
+				if d == 0 {
+					pos++
+					return s[start:pos]
+				}
+			}
+			pos++
+		}
+		return s[start:]
+	}
+	for {
+		for pos < len(s) && (s[pos] == ' ' || s[pos] == '\n' || s[pos] == '\t' || s[pos] == '\r') {
+			pos++
+		}
+		if pos >= len(s) || s[pos] != '(' {
+			break
+		}
+		pos++ // open pair
+		t := readSexp()
+		v := readSexp()
+		for pos < len(s) && s[pos] != ')' {
+			pos++
+		}
+		pos++
+		if t == "" {
+			break
+		}
+		m[normSpace(t)] = normSpace(v)
+	}
+	return m
+}
+
+func normSpace(s string) string { return strings.Join(strings.Fields(s), " ") }
